@@ -31,6 +31,7 @@ class Harness:
         self.assumes = meta.get("assumes", "")
         self.nocover = meta.get("nocover", "") in ("1", "true", "yes")
         self.must_panic = meta.get("must_panic", "") in ("1", "true", "yes")
+        self.may_panic = meta.get("may_panic", "") in ("1", "true", "yes")
 
     @property
     def modname(self):
